@@ -2,17 +2,17 @@ import SV.Driver.Util
 import SV.Model.Snap
 /-
 svdriver_c09: the protocol of svdriver_c08 plus
-  image <call idx> <marker> <occ> <async><norestore><allow> mf=<*|ids|-> uf=<…> order=<…>
-      -> restore=<ok|err> tr=… ls=… meta=… [ | cleanup=<ok|err> tr=… ls=… ]
+  fork <call idx> <marker> <occ>      -> ok ls=… meta=…
 `call idx` counts the calls since the last `reset` (0-based); `(marker, occ)` is the occ-th firing
-of that crash-point marker inside that call.  The model restarts on `crash` of the state after
-that prefix of the call's atomic steps and then runs one Cleanup.
+of that crash-point marker inside that call.  The model continues on `crash` of the state after
+that prefix of the call's atomic steps; the following lines (`restart …`, `cleanup`, …) run on
+that image.
 -/
 namespace SV.Driver.C09
 open SV.Snap SV.Snap.Wire
 
 def step (d : DSt) : List String → DSt × String
-  | "image" :: args => (d, stepImage d args)
+  | "fork" :: args => stepFork d args
   | ws => stepCommon d ws
 
 end SV.Driver.C09
